@@ -313,6 +313,101 @@ var Scenarios = []Directed{
 		s.End()
 		s.Blocks(6, allHdr)
 	}},
+	{"redistribute_same_total", []string{"C10", "C13"}, fam(0), func(s *Script) {
+		// the number of validators and the sum of their powers stay what they were while the distribution changes:
+		// power moves from one validator to another inside one block (a delegator moves; a validator cuts its own stake
+		// while another raises its own by as much), first between validators of different power, then back
+		s.Blocks(2, allHdr)
+		s.Begin(allHdr) // 3
+		s.expect(OK(s.Stake(4, 1, "5e18")), "a4 -> a1")
+		s.End()
+		s.Blocks(2, allHdr)
+		s.Begin(allHdr) // 6
+		s.expect(OK(s.Unstake(4, 1, s.StakeIDs(4, 1)[0])), "a4 leaves a1")
+		s.expect(OK(s.Stake(4, 2, "5e18")), "and bonds the same power to a2")
+		s.End()
+		s.Blocks(3, allHdr)
+		s.Begin(allHdr) // 10
+		s.expect(OK(s.Stake(3, 3, "2e18")), "a3 raises its own stake by 2")
+		s.expect(OK(s.Stake(5, 1, "1e18")), "a5 -> a1: 1")
+		s.End()
+		s.Blocks(2, allHdr)
+		s.Begin(allHdr) // 13
+		s.expect(OK(s.Unstake(4, 2, s.StakeIDs(4, 2)[0])), "a4 leaves a2 (-5)")
+		s.expect(OK(s.Stake(5, 1, "3e18")), "a5 -> a1: 3")
+		s.expect(OK(s.Stake(5, 3, "2e18")), "a5 -> a3: 2")
+		s.End()
+		s.Blocks(1, allHdr)
+		s.Restart()
+		s.Blocks(4, allHdr)
+	}},
+	{"tiny_voter_slashed", []string{"C15", "C14", "C07"}, fam(4), func(s *Script) {
+		// powers 1,1,2,3 (total 7, slash ratio 50 %): half of power 1 is 0.  A voter of power 1 is accused after it voted:
+		// its recorded power stays 1 and its vote stays cast; with it the option holds 5 of 7, without it 4.
+		s.Blocks(2, allHdr)
+		s.Begin(allHdr) // 3
+		s.expect(OK(s.Propose(4, 5, 4, 13, `{"lazyRewardBlocks":"5"}`)), "a4 opens a proposal")
+		s.End()
+		p := s.Proposals()
+		if len(p) != 1 {
+			s.expect(false, "one proposal in voting")
+			return
+		}
+		s.Blocks(1, allHdr)
+		s.Begin(allHdr) // 5
+		s.expect(OK(s.Vote(1, p[0], 0)), "a1 (1) votes")
+		s.expect(OK(s.Vote(2, p[0], 0)), "a2 (1) votes")
+		s.expect(OK(s.Vote(4, p[0], 0)), "a4 (3) votes")
+		s.End()
+		s.Begin(Hdr{Evidence: []int{1}}) // 6: a1 is accused; nothing can be cut from power 1
+		s.End()
+		s.Begin(Hdr{Evidence: []int{3}}) // 7: a3 (2, silent) is accused: 2 -> 1
+		s.End()
+		s.Blocks(8, allHdr)
+	}},
+	{"tiny_stakes_slashed", []string{"C12", "C11", "C14", "C07", "C10"}, fam(4), func(s *Script) {
+		// every stake of the accused delegatee is too small to be cut (all are forfeited, the delegatee is left empty);
+		// then a delegatee whose OWN stakes are all too small while the delegated ones survive: it is left with delegators
+		// only, and one of them leaves
+		s.Blocks(2, allHdr)
+		s.Begin(allHdr) // 3
+		s.expect(OK(s.Stake(5, 2, "1e18")), "a5 -> a2: 1")
+		s.expect(OK(s.Stake(7, 7, "1e18")), "a7 bonds 1 to itself")
+		s.expect(OK(s.Stake(7, 7, "1e18")), "a7 bonds 1 to itself again")
+		s.End()
+		id52 := s.StakeIDs(5, 2)
+		if len(id52) != 1 {
+			s.expect(false, "a5's stake at a2 exists")
+			return
+		}
+		s.Begin(allHdr) // 4
+		s.expect(OK(s.Stake(5, 7, "2e18")), "a5 -> a7: 2")
+		s.expect(OK(s.Stake(6, 7, "2e18")), "a6 -> a7: 2")
+		s.End()
+		s.Blocks(3, allHdr)
+		s.Begin(Hdr{Evidence: []int{2}}) // 8: a2 = 1 + 1, nothing survives
+		s.End()
+		s.Begin(allHdr)          // 9
+		s.Unstake(5, 2, id52[0]) // the forfeited stake
+		s.Stake(6, 2, "2e18")
+		s.End()
+		s.Begin(Hdr{Evidence: []int{7}}) // 10: a7 = (1 + 1) own + 2 + 2 delegated: own stakes forfeited, 1 + 1 survive
+		s.End()
+		s.Blocks(1, allHdr)
+		s.Begin(allHdr) // 12
+		if ids := s.StakeIDs(5, 7); len(ids) > 0 {
+			s.Unstake(5, 7, ids[0])
+		}
+		s.End()
+		s.Blocks(2, allHdr)
+		s.Begin(allHdr) // 15
+		if ids := s.StakeIDs(6, 7); len(ids) > 0 {
+			s.Unstake(6, 7, ids[0])
+		}
+		s.Stake(7, 7, "3e18")
+		s.End()
+		s.Blocks(8, allHdr)
+	}},
 	{"evidence_after_close", []string{"C15", "C14"}, fam(2), func(s *Script) {
 		// powers 5,8,10,12,20 (total 55, threshold 36, slash ratio 34 %): evidence against a voter arrives in the block
 		// AFTER the window closed, before the proposals are settled. A: 35 of 55 at the close (one short), the slashing of
